@@ -211,12 +211,15 @@ Definition set_url (w : world) (st : state) (old new : bytes) (enabled white : b
                 let (ev, r) := update w f1 in
                 match r with
                 | UNew m => (put (fun _ => with_content f1 m), SOk 0, [ev])
-                | USame => (put (fun _ => f1), SOk 0, [ev])
+                | USame =>
+                    (* "no changes" against the forgotten checksum: the new contents
+                       have no rules; the stored file is removed (fix 9598232) *)
+                    (put (fun _ => {| f_url := f_url f1; f_enabled := f_enabled f1;
+                                      f_loaded := 0; f_sum := f_sum f1 |}), SOk 0, [ev])
                 | UErr =>
-                    (* rolled back, except that the forgotten checksum stays forgotten *)
-                    (put (fun f => {| f_url := f_url f; f_enabled := f_enabled f;
-                                      f_loaded := f_loaded f; f_sum := f_sum f1 |}),
-                     SFetchFail, [ev])
+                    (* rolled back completely, the remembered checksum included
+                       (fix fab89af) *)
+                    (st, SFetchFail, [ev])
                 | UPanic => (st, SPanic, [ev])
                 end
               else (put (fun _ => f1), SOk 0, [])
